@@ -300,7 +300,10 @@ class C07(Prop):
             snap = {'id': r.id, 'keys': sorted(k for k, _ in rec['data']),
                     'data': sorted([k, canon_py(v)] for (k, _), v in zip(rec['data'], live)),
                     'meta': canon_py(meta)}
-            cassette.save_recording(r)
+            try:
+                cassette.save_recording(r)
+            except Exception as ex:      # (a value of the faithful domain: the oracle reports it)
+                snap['save_error'] = type(ex).__name__
             # late mutations of everything the caller still holds: none of it may reach the stored recording
             for v in live + table + list(meta.values()):
                 if isinstance(v, list):
@@ -493,6 +496,8 @@ class C07(Prop):
             if tag == 'plain' and rec['shared'] and (any(risky(w) for _, w in rec['data'] + rec['meta'])
                                                      or any(risky(w) for w in rec['shared'])):
                 tag = 'sharedobj'
+            if snap.get('save_error'):
+                fails.append('[%s] %s: saving it raised %s' % (tag, who, snap['save_error']))
             if 'err' in got:
                 fails.append('[%s] %s: fetch of the saved id %s gave %s' % (tag, who, snap['id'], got['err']))
                 continue
